@@ -60,7 +60,7 @@ int & owner_of(pthread_mutex_t * m) {
     if (nown >= 512) { fputs("HARNESS: sched mutex table full\n", stderr); _exit(2); }
     own[nown].m = m; own[nown].owner = -1; return own[nown++].owner;
 }
-uint64_t rng; int strategy, sparam; uint64_t steps, switches, sig, budget = 0; int spurious = 0, timeouts = 0;
+uint64_t rng; int strategy, sparam; uint64_t steps, switches, sig, budget = 0; int spurious = 0, timeouts = 0, wake_delay = 1;
 uint64_t change_points[8]; int nchange = 0;
 // virtual time: session threads see real time + voff_ns; an injected timeout moves the clock past the waiter's deadline,
 // so that library code which re-checks the clock after a timed wait (libstdc++ does) really sees the timeout
@@ -217,7 +217,7 @@ void schedule() {
         if (!next || rnd() % 16 == 0) next = cand[rnd() % nc];
     } else next = cand[rnd() % nc];
     if (next->st == WANT_MUTEX) owner_of((pthread_mutex_t *)next->obj) = next->id;
-    next->st = RUNNABLE;
+    next->st = RUNNABLE; next->hold = 0;
     sig = sig * 1099511628211ULL ^ (uint64_t)(next->id + 1);
     if (slog && nlog < LOGMAX) slog[nlog++] = (uint8_t)next->id;
     if (next == me) { r_unlock(&G); return; }
@@ -285,6 +285,7 @@ void sched_set_budget(uint64_t s) { budget = s; }
 void sched_set_spurious(int pm) { spurious = pm; }
 void sched_set_chooser(int (*fn)(int, const int *, int, int)) { chooser = fn; }
 void sched_set_timeouts(int pm) { timeouts = pm; }
+void sched_set_wake_delay(int on) { wake_delay = on; }
 void sched_replay(const uint8_t * seq, size_t n) { replay_seq = seq; replay_n = n; replay_i = 0; }
 const uint8_t * sched_log(size_t * n) { *n = nlog; return slog; }
 uint64_t sched_steps(void) { return steps; }
@@ -342,8 +343,12 @@ static void wake(pthread_cond_t * c, bool all) {
     int idx[MAXT], n = 0;
     for (int i = 0; i < nT; i++) if (T[i]->st == WAIT_COND && T[i]->obj == c) idx[n++] = i;
     if (!n) return;
-    if (all) { for (int k = 0; k < n; k++) { Th * t = T[idx[k]]; t->st = WANT_MUTEX; t->obj = t->obj2; } }
-    else { Th * t = T[idx[chooser ? 0 : rnd() % n]]; t->st = WANT_MUTEX; t->obj = t->obj2; }
+    // a woken thread may be slow to get going (loaded machine): with probability 1/2 it is passed over for a while as long as
+    // somebody else can run - mostly 4..19 decisions, one time in eight 40..239, long enough for the notifier to finish a
+    // multi-step operation (consume and release everything that was buffered) before the waiter looks at the shared state again
+    auto slow = [&](Th * t) { if (!chooser && wake_delay && rnd() % 2) t->hold = (rnd() % 8) ? 4 + (int)(rnd() % 16) : 40 + (int)(rnd() % 200); };
+    if (all) { for (int k = 0; k < n; k++) { Th * t = T[idx[k]]; t->st = WANT_MUTEX; t->obj = t->obj2; slow(t); } }
+    else { Th * t = T[idx[chooser ? 0 : rnd() % n]]; t->st = WANT_MUTEX; t->obj = t->obj2; slow(t); }
 }
 int pthread_cond_broadcast(pthread_cond_t * c) {
     if (!controlled()) { if (!resolved.load(std::memory_order_acquire)) resolve(); int rc = r_bcast(c); jitter(); return rc; }
